@@ -122,23 +122,30 @@ ClearLanguages ==
 \* metamodel_for_language(name, **kwargs)
 \*   without kwargs: cached instance if any; otherwise (or with kwargs) the
 \*   registered instance, or a fresh instance from the factory, then cached.
-MetamodelFor(n, kw) ==
+\*   bad: the factory refuses these kwargs (raises); a failed request leaves the
+\*   cache as it was, so the next request without arguments still gets the cached instance.
+MetamodelFor(n, kw, bad) ==
   /\ "MetamodelFor" \in Ops
+  /\ bad => kw
   /\ LET k == Lower[n] IN
      IF k \in CacheKeys /\ ~kw
-     THEN /\ Rec("MetamodelFor", <<n, kw>>, Ok(CacheGet(k)))
+     THEN /\ Rec("MetamodelFor", <<n, kw, bad>>, Ok(CacheGet(k)))
           /\ UNCHANGED <<lloaded, langs, cache, fresh>>
      ELSE LET ls == LangsNow IN
           /\ lloaded' = TRUE /\ langs' = ls
           /\ IF k \notin Keys(ls)
-             THEN /\ Rec("MetamodelFor", <<n, kw>>, RegErr) /\ UNCHANGED <<cache, fresh>>
+             THEN /\ Rec("MetamodelFor", <<n, kw, bad>>, RegErr) /\ UNCHANGED <<cache, fresh>>
              ELSE LET d == Find(ls, k) IN
                   IF d.kind = "instance"
                   THEN /\ cache' = CachePut(k, <<"inst", d.inst>>) /\ fresh' = fresh
-                       /\ Rec("MetamodelFor", <<n, kw>>, Ok(<<"inst", d.inst>>))
+                       /\ Rec("MetamodelFor", <<n, kw, bad>>, Ok(<<"inst", d.inst>>))
+                  ELSE IF bad
+                  THEN /\ Rec("MetamodelFor", <<n, kw, bad>>, Err("TypeError"))
+                       /\ cache' = (IF "FailedRequestEvicts" \in Dev THEN {c \in cache : c.key # k} ELSE cache)
+                       /\ fresh' = fresh
                   ELSE /\ fresh' = fresh + 1
                        /\ cache' = CachePut(k, <<"fresh", ToString(fresh + 1)>>)
-                       /\ Rec("MetamodelFor", <<n, kw>>, Ok(<<"fresh", ToString(fresh + 1)>>))
+                       /\ Rec("MetamodelFor", <<n, kw, bad>>, Ok(<<"fresh", ToString(fresh + 1)>>))
   /\ UNCHANGED <<gloaded, gens>>
 
 \* languages_for_file(f): the languages whose pattern matches, registration order
@@ -204,7 +211,7 @@ Next ==
   \/ \E n \in Names : DescribeLanguage(n)
   \/ ListLanguages
   \/ ClearLanguages
-  \/ \E n \in Names, kw \in BOOLEAN : MetamodelFor(n, kw)
+  \/ \E n \in Names, kw \in BOOLEAN, bad \in BOOLEAN : MetamodelFor(n, kw, bad)
   \/ \E f \in Files : LanguagesForFile(f)
   \/ \E f \in Files : LanguageForFile(f)
   \/ \E l \in Names \cup {"any"}, t \in Targets : RegisterGenerator(l, t)
@@ -256,6 +263,10 @@ CachedOrFresh ==
        /\ (op'.args[2] /\ Find(LangsNow, k).kind = "factory"
              => op'.res.v = <<"fresh", ToString(fresh + 1)>> /\ fresh' = fresh + 1)
        /\ [key |-> k, mm |-> op'.res.v] \in cache']_vars
+
+\* a request that fails leaves the cache alone (the cached instance stays "the cached instance")
+FailedRequestKeepsCache ==
+  [][op'.name = "MetamodelFor" /\ ~op'.res.ok => cache' = cache /\ fresh' = fresh]_vars
 
 Bound == fresh <= MaxFresh /\ Len(langs) <= Len(EPLangs) + 2 /\ Len(gens) <= Len(EPGens) + 2
 
